@@ -23,6 +23,7 @@ class Emitter:
         self.lines = []
         self.lut_names = {}   # (id(table), base_w, w) -> name
         self.vars = {}        # name -> width
+        self.fvars = {}       # FP variable names
 
     def _lut_fn(self, tbl, bw, w):
         key = (id(tbl), bw, w)
@@ -101,6 +102,8 @@ class Emitter:
                     self.lines.append('(assert (bvult %s %s))' % (name, _bv(w, rng)))
             self.defined[x.id] = name
             return
+        if op.startswith('fp'):
+            return self._define_fp(x)
         a = [self.defined[y.id] for y in x.args]
         if op in ('xor', 'and', 'or', 'add', 'mul'):
             smt = {'xor': 'bvxor', 'and': 'bvand', 'or': 'bvor', 'add': 'bvadd', 'mul': 'bvmul'}[op]
@@ -135,6 +138,59 @@ class Emitter:
             raise NotImplementedError(op)
         name = 'n%d' % x.id
         self.lines.append('(define-fun %s () (_ BitVec %d) %s)' % (name, w, e))
+        self.defined[x.id] = name
+
+    def _define_fp(self, x):
+        op = x.op
+        F64 = '(_ FloatingPoint 11 53)'
+        if op == 'fp.var':
+            name = '|%s|' % x.val
+            if x.val not in self.fvars:
+                self.fvars[x.val] = True
+                self.lines.append('(declare-const %s %s)' % (name, F64))
+            self.defined[x.id] = name
+            return
+        if op == 'fp.const':
+            b = x.val
+            self.defined[x.id] = '(fp #b%d #b%s #b%s)' % (b >> 63, format((b >> 52) & 0x7FF, '011b'), format(b & ((1 << 52) - 1), '052b'))
+            return
+        a = [self.defined[y.id] for y in x.args]
+        sort = F64
+        if op == 'fp.add':
+            e = '(fp.add RNE %s %s)' % (a[0], a[1])
+        elif op == 'fp.sub':
+            e = '(fp.sub RNE %s %s)' % (a[0], a[1])
+        elif op == 'fp.mul':
+            e = '(fp.mul RNE %s %s)' % (a[0], a[1])
+        elif op == 'fp.div':
+            e = '(fp.div RNE %s %s)' % (a[0], a[1])
+        elif op == 'fp.neg':
+            e = '(fp.neg %s)' % a[0]
+        elif op == 'fp.round':
+            e = '(fp.roundToIntegral RNA %s)' % a[0]
+        elif op == 'fp.trunc':
+            e = '(fp.roundToIntegral RTZ %s)' % a[0]
+        elif op == 'fp.fmod':
+            # only ever compared with zero in this crate: x % y == 0 iff the IEEE remainder is zero
+            e = '(fp.rem %s %s)' % (a[0], a[1])
+        elif op == 'fp.from_ubv':
+            e = '((_ to_fp_unsigned 11 53) RNE %s)' % a[0]
+        elif op == 'fp.ite':
+            e = '(ite (= %s #b1) %s %s)' % (a[0], a[1], a[2])
+        elif op == 'fpcmp.eq':
+            e, sort = '(ite (fp.eq %s %s) #b1 #b0)' % (a[0], a[1]), '(_ BitVec 1)'
+        elif op == 'fpcmp.lt':
+            e, sort = '(ite (fp.lt %s %s) #b1 #b0)' % (a[0], a[1]), '(_ BitVec 1)'
+        elif op == 'fpcmp.le':
+            e, sort = '(ite (fp.leq %s %s) #b1 #b0)' % (a[0], a[1]), '(_ BitVec 1)'
+        elif op == 'fpcmp.same':
+            e, sort = '(ite (= %s %s) #b1 #b0)' % (a[0], a[1]), '(_ BitVec 1)'
+        elif op == 'fpcmp.finite':
+            e, sort = '(ite (or (fp.isInfinite %s) (fp.isNaN %s)) #b0 #b1)' % (a[0], a[0]), '(_ BitVec 1)'
+        else:
+            raise NotImplementedError(op)
+        name = 'n%d' % x.id
+        self.lines.append('(define-fun %s () %s %s)' % (name, sort, e))
         self.defined[x.id] = name
 
     def take_lines(self):
@@ -286,10 +342,41 @@ class Solver:
         return ans, model
 
     def model(self):
-        if not self.em.vars:
+        if not self.em.vars and not self.em.fvars:
             return {}
         names = list(self.em.vars)
         model = {}
+        fn = list(self.em.fvars)
+        for i in range(0, len(fn), 50):
+            chunk = fn[i:i + 50]
+            self._send('(get-value (%s))' % ' '.join('|%s|' % n for n in chunk))
+            self._flush()
+            buf = ''
+            depth = 0
+            started = False
+            while True:
+                ch = self._readline(time.time() + 120)
+                if ch is None:
+                    raise SolverError('solver stalled in get-value')
+                buf += ch + '\n'
+                depth += ch.count('(') - ch.count(')')
+                if '(' in ch:
+                    started = True
+                if started and depth <= 0:
+                    break
+            import struct
+            for mm in re.finditer(r'\((\|[^|]*\||[^\s()|]+)\s+\(fp\s+#b([01])\s+#b([01]+)\s+(#b[01]+|#x[0-9a-fA-F]+)\)\)', buf):
+                sg, ex, mn = int(mm.group(2)), int(mm.group(3), 2), mm.group(4)
+                mnv = int(mn[2:], 2) if mn[1] == 'b' else int(mn[2:], 16)
+                bits = (sg << 63) | (ex << 52) | mnv
+                model[mm.group(1).strip('|')] = struct.unpack('<d', struct.pack('<Q', bits))[0]
+            for mm in re.finditer(r'\((\|[^|]*\||[^\s()|]+)\s+\(_\s+([+-])(zero|oo)\s+11\s+53\)\)', buf):
+                val = 0.0 if mm.group(3) == 'zero' else float('inf')
+                model[mm.group(1).strip('|')] = -val if mm.group(2) == '-' else val
+            for mm in re.finditer(r'\((\|[^|]*\||[^\s()|]+)\s+\(_\s+NaN\s+11\s+53\)\)', buf):
+                model[mm.group(1).strip('|')] = float('nan')
+        if not names:
+            return model
         for i in range(0, len(names), 200):
             chunk = names[i:i + 200]
             self._send('(get-value (%s))' % ' '.join('|%s|' % n for n in chunk))
